@@ -6,7 +6,7 @@ use crate::universe::{universe, BuildStep, UVal};
 
 pub const STR_ATOMS: &[&str] = &[
     "", "a", "b", "ab", "abc", "5", "05", "5.0", " 5", "5 ", "0", "-0", "-1", "1e3", "1E3", ".5", "5.", "+5", "NaN", "nan", "inf",
-    "-inf", "infinity", "true", "false", "null", "mysterious", "ünï", "é", "日本", "🎸", "Ａ", "ﬁ", "\u{fffd}", "𝄞", ",", ", ", " ", "aa", "aaa", "a,b", "a,,b",
+    "-inf", "infinity", "true", "false", "null", "mysterious", "ünï", "é", "日本", "🎸", "Ａ", "ﬁ", "\u{fffd}", "𝄞", "‘q’", "“dq”", "\u{1b}[2J", "\u{9b}", ",", ", ", " ", "aa", "aaa", "a,b", "a,,b",
     ",a,", "x", "Z", "z", "1", "2", "10", "9", "65", "0x10", "ff", "FF", "zz", "-ff", "1_0", "\t", "a b c", "hello world",
 ];
 
